@@ -711,6 +711,7 @@ func generate(seed uint64, n int) {
 	out.Emit(History{ID: n + 4, Cached: true, Cut: -1, Witness: "F08b", Probe: "global", NoChurn: true})
 	out.Emit(History{ID: n + 5, Cached: false, Cut: -1, Witness: "MEMFREE", Probe: "alloc-importer", NoChurn: true})
 	out.Emit(History{ID: n + 6, Cached: true, Cut: -1, Witness: "MEMFREE", Probe: "alloc-definer", NoChurn: true})
+	out.Emit(History{ID: n + 7, Cached: false, Cut: -1, Witness: "MEMFREE", Probe: "alloc-ctxclose", NoChurn: true})
 }
 
 // FixedShared: the run-time store into an imported SHARED table by an importer WITHOUT any element section (its
